@@ -233,6 +233,13 @@ func baseConfig(rng *simcore.RNG, env *simcore.Env) simcore.Op {
 			c["crash"] = false
 		}
 	}
+	c["relay_ahead"] = rng.Bool(0.4) // peers also relay votes of rounds the receiver has not reached
+	// "a decision seen without its block": while a node sits in the commit step without the
+	// block, the network withholds the block from it and the decisive precommits from the others
+	c["commit_starve"] = rng.Bool(0.3)
+	if c.Bool("commit_starve") {
+		c["relay_ahead"] = true
+	}
 	return c
 }
 
@@ -561,15 +568,25 @@ func (s *sim) deliverables() []item {
 						rounds[certRound] = true
 					}
 				}
+				// Votes of a round the receiver has not reached. The shipped gossip routine never
+				// sends them, but any peer may: "every message a correct node holds reaches every
+				// other correct node" after the synchrony point, and before it a (faulty or merely
+				// differently built) peer relaying genuine votes is ordinary asynchrony. They are what
+				// round skipping (+2/3-any of a later round) exists for.
+				aheadRound := int32(-1)
+				if ra.Round > rb.Round && (s.gst || s.cfg.Bool("relay_ahead")) {
+					aheadRound = ra.Round
+					rounds[aheadRound] = true
+				}
 				for r := int32(0); r <= s.maxRound+2; r++ {
 					if !rounds[r] {
 						continue
 					}
 					for typ := 1; typ <= 2; typ++ {
-						if r == polRound && r != rb.Round && typ == 2 && r != certRound {
+						if r == polRound && r != rb.Round && typ == 2 && r != certRound && r != aheadRound {
 							continue
 						}
-						if r == certRound && r != rb.Round && r != polRound && typ == 1 {
+						if r == certRound && r != rb.Round && r != polRound && r != aheadRound && typ == 1 {
 							continue
 						}
 						va := voteSetOf(ra, r, typ)
@@ -653,6 +670,36 @@ func (s *sim) deliverables() []item {
 		}
 	}
 	out = append(out, s.byzDeliverables(rss)...)
+	return out
+}
+
+// starveFilter (asynchrony bias, before the synchrony point only): while some node knows the
+// decision of its height but not the block, nothing that would give it the block and none of the
+// decisive precommits for the others is delivered - the others time out into later rounds.
+func (s *sim) starveFilter(items []item) []item {
+	rss := s.roundStates()
+	a := -1
+	for _, i := range sortedKeys(rss) {
+		if rs := rss[i]; rs.Step == cstypes.RoundStepCommit && rs.ProposalBlock == nil {
+			a = i
+			break
+		}
+	}
+	if a < 0 {
+		return items
+	}
+	ra := rss[a]
+	var out []item
+	for _, it := range items {
+		if it.to == a && (it.kind == "part" || it.kind == "cpart" || it.kind == "proposal") {
+			continue
+		}
+		if it.to != a && it.h == ra.Height && it.typ == 2 && it.r == ra.CommitRound {
+			continue
+		}
+		out = append(out, it)
+	}
+	s.env.Count("probe.commit_starve_active")
 	return out
 }
 
@@ -838,6 +885,9 @@ func (s *sim) Next(rng *simcore.RNG) simcore.Op {
 		dirActive = s.dir.phase >= 1 && s.dir.phase <= 4
 	}
 	items := s.deliverables()
+	if s.cfg.Bool("commit_starve") {
+		items = s.starveFilter(items)
+	}
 	var pend []*simNode
 	for _, n := range s.alive() {
 		if n.ticker != nil {
